@@ -286,6 +286,10 @@ class C10(Check):
         finally:
             bb.DDEHistory = RealHist
         E = rec.events
+        if prec == 'float64' and rec.lossy_time():
+            V('L-clock', 'silent', 'time-precision', f'float64 model: the time argument reached the generated function as '
+                                                     f'{rec.lossy_time()} (solver={cfg["solver"]}, backend={cfg.get("backend")})')
+            return res
         if not E:
             V('L-count', 'silent', 'no-events', 'no RHS evaluations recorded')
             return res
